@@ -72,6 +72,9 @@ structure MemOk (m : Memory) : Prop where
   memTop : m.mem.base + m.mem.bytes.size < 2 ^ 64
   stackTop : m.stack.base + m.stack.bytes.size < 2 ^ 64
   nullMem : m.mem.base = 0 → m.mem.bytes.size = 0
+  /-- an empty packet is handed over with the null base (`Vm.pktRegion`: the interpreter's `mem_base`, the null `mem_ptr`
+      compiled code receives) -/
+  emptyMem : m.mem.bytes.size = 0 → m.mem.base = 0
   nullMbuff : m.mbuff.base = 0 → m.mbuff.bytes.size = 0
   below : m.mem.base < 2 ^ 64 ∧ m.mbuff.base < 2 ^ 64 ∧ m.stack.base < 2 ^ 64
   stack512 : m.stack.bytes.size = 512
